@@ -358,7 +358,9 @@ class Ctx:
             return Outcome(exc=e)
 
     def events(self):
-        return list(self.path.events) if self.symbolic else list(self._events)
+        if self.symbolic:
+            return list(self.path.events)
+        return list(self._events) + [('warn', w.message) for w in getattr(self, '_warnings', None) or []]
 
     # ------------------------------------------------- dual-mode operators
     def eq(self, a, b, tol=TOL):
@@ -599,11 +601,91 @@ def _z3_nlsat(assertions, timeout_ms):
         return z3.unknown, None
 
 
+def _linabs(assertions, timeout_ms):
+    """linear abstraction: every real comparison  a ~ b  is rewritten as a linear constraint over the monomials of the fully
+    expanded polynomial a - b (sym._poly); a monomial that is a single atom stays that term, any other monomial becomes a
+    fresh real (the same one wherever it occurs; >= 0 when all its powers are even).  Every model of the original set gives a
+    model of the abstraction, so `unsat` of the abstraction proves `unsat` of the original - PROVIDED the cancellations
+    d * (1/d) = 1 made by the expansion are valid, i.e. no denominator is zero: that case is discharged separately.
+    Only `unsat` is ever reported from here."""
+    mono = {}
+    side = []
+
+    def var(m):
+        if len(m) == 1 and m[0][1] == 1:
+            a = sym._ATOMS[m[0][0]]
+            if a.sort().kind() == z3.Z3_REAL_SORT:
+                return a
+        k = repr(m)
+        if k not in mono:
+            v = z3.Real('mono!%d' % len(mono))
+            mono[k] = v
+            if all(pw % 2 == 0 for _, pw in m):
+                side.append(v >= 0)
+        return mono[k]
+
+    def lin(t):
+        p = sym._poly(z3.simplify(t))
+        tot = None
+        for m in sorted(p, key=repr):
+            q = p[m]
+            term = sym._rv(q) if m == () else (var(m) if q == 1 else sym._rv(q) * var(m))
+            tot = term if tot is None else tot + term
+        return tot if tot is not None else z3.RealVal(0)
+
+    cmps = {z3.Z3_OP_LE: lambda x: x <= 0, z3.Z3_OP_LT: lambda x: x < 0, z3.Z3_OP_GE: lambda x: x >= 0, z3.Z3_OP_GT: lambda x: x > 0,
+            z3.Z3_OP_EQ: lambda x: x == 0}
+    memo = {}
+
+    def tr(f):
+        k = f.get_id()
+        if k in memo:
+            return memo[k]
+        out = f
+        if z3.is_app(f) and f.sort().kind() == z3.Z3_BOOL_SORT:
+            op = f.decl().kind()
+            ch = f.children()
+            if op in cmps and len(ch) == 2 and ch[0].sort().kind() == z3.Z3_REAL_SORT:
+                out = cmps[op](lin(ch[0] - ch[1]))
+            elif op == z3.Z3_OP_DISTINCT and len(ch) == 2 and ch[0].sort().kind() == z3.Z3_REAL_SORT:
+                out = lin(ch[0] - ch[1]) != 0
+            elif op in (z3.Z3_OP_AND, z3.Z3_OP_OR, z3.Z3_OP_NOT, z3.Z3_OP_IMPLIES, z3.Z3_OP_XOR) or \
+                    (op in (z3.Z3_OP_EQ, z3.Z3_OP_ITE) and ch[0].sort().kind() == z3.Z3_BOOL_SORT):
+                out = f.decl()(*[tr(c) for c in ch])
+        memo[k] = out
+        return out
+
+    try:
+        dens = []
+        for a in assertions:
+            sym._denominators(a, dens)
+        seen, uniq = set(), []
+        for d in dens:
+            if d.get_id() not in seen:
+                seen.add(d.get_id())
+                uniq.append(d)
+        abstracted = [tr(a) for a in assertions]
+        if not mono:
+            return z3.unknown, None           # nothing was abstracted: the plain solver has already seen this query
+        r, _ = _z3_default(abstracted + side + [tr(d != 0) for d in uniq], timeout_ms)
+        if r != z3.unsat:
+            return z3.unknown, None
+        if uniq:
+            r2, _ = _z3_default(list(assertions) + [z3.Or(*[d == 0 for d in uniq])], min(timeout_ms, 5000))
+            if r2 != z3.unsat:
+                return z3.unknown, None
+        return z3.unsat, None
+    except (OverflowError, RecursionError, z3.Z3Exception):
+        return z3.unknown, None
+
+
 def solve(assertions, timeout_ms, want_model=True, second=False):
     """-> (result 'unsat'|'sat'|'unknown', model|None, backend, seconds)
     staged: z3 default (short) -> z3 nlsat pipeline -> z3 default (full budget) -> cvc5"""
     t0 = time.time()
     stages = [('z3', _z3_default, min(timeout_ms, 2500))]
+    if not os.environ.get('PYVC_NOLINABS'):
+        stages.append(('z3-linabs', _linabs, min(timeout_ms, 10000)))
     stages.append(('z3-nlsat', _z3_nlsat, timeout_ms))
     if timeout_ms > 2500:
         stages.append(('z3', _z3_default, timeout_ms))
@@ -730,6 +812,11 @@ def canary_solve(hyps, cond):
     r, m = _z3_default(rel + [z3.Not(cond)], 4000)
     if r == z3.unsat:
         r, m = _z3_default(hyps.full() + [z3.Not(cond)], 4000)   # (cannot become sat; kept for symmetry)
+    elif not os.environ.get('PYVC_NOLINABS'):
+        # soundness guard for the abstraction stage: it must not "prove" what must not be provable
+        r3, _ = _linabs(rel + [z3.Not(cond)], 4000)
+        if r3 == z3.unsat:
+            return 'unsat', None, 'z3-linabs', time.time() - t0
     return ('unsat' if r == z3.unsat else 'sat' if r == z3.sat else 'unknown'), m, 'z3', time.time() - t0
 
 
